@@ -16,6 +16,7 @@ mod exec;
 mod gen;
 mod include_rule;
 mod l2;
+mod lw;
 mod model;
 mod rng;
 mod simfs;
@@ -124,7 +125,8 @@ fn main() {
                 Some(p) => *p,
                 None => usage(),
             };
-            match prop.run(seed, index, "quick") {
+            let tier = args.get(3).cloned().unwrap_or_else(|| "quick".to_owned());
+            match prop.run(seed, index, &tier) {
                 Ok(report) => {
                     outln!("{}", serde_json::to_string_pretty(&report.scenario).unwrap());
                     for v in &report.violations {
